@@ -91,9 +91,11 @@ impl Scenario for FrameRender {
         case.set("scy", edge(rng, &[0, 1, 7, 8, 112, 255, 248, 200]));
         case.set("wx", edge(rng, &[0, 1, 2, 3, 4, 5, 6, 7, 8, 9, 15, 87, 159, 165, 166, 167, 168, 255]));
         case.set("wy", edge(rng, &[0, 1, 7, 8, 72, 143, 144, 255]));
-        case.set("bgp", rng.byte() as i64);
-        case.set("obp0", rng.byte() as i64);
-        case.set("obp1", rng.byte() as i64);
+        // palettes: uniform, or (1 in 5 each) a corner value - all four shades equal, identity, reversed
+        let pal = |rng: &mut Rng| if rng.chance(1, 5) { rng.pick(&[0x00u8, 0xff, 0xe4, 0x1b, 0x55, 0xaa]) } else { rng.byte() };
+        case.set("bgp", pal(rng) as i64);
+        case.set("obp0", pal(rng) as i64);
+        case.set("obp1", pal(rng) as i64);
         // objects
         let count = rng.pick(&[0usize, 1, 2, 5, 10, 11, 12, 20, 40, 40]);
         let mut oam = vec![0u8; 0xa0];
